@@ -13,6 +13,7 @@ CONSTANTS
   FixCommonSnapshot = TRUE
   GenDepth = 0
   GenHistory = FALSE
+  GenReject = FALSE
 VIEW LoadView
 INVARIANT EmitLoad
 CHECK_DEADLOCK FALSE
